@@ -1,4 +1,5 @@
 import TonicModel.Basic.ConnScript
+import TonicModel.Basic.ErrChain
 /-
 Model of tonic's reconnecting connection (C14):
   * `transport/channel/service/reconnect.rs::Reconnect::poll_ready`   → `step` / `loop` / `pollReady`
@@ -6,6 +7,8 @@ Model of tonic's reconnecting connection (C14):
   * how `Channel` drives it (`ready_oneshot` for an eager channel, then the `tower::buffer`
     worker: poll until ready, then call; a `poll_ready` error closes the buffer) → `drive`,
     `serve`, `session`, `connectEager`
+  * `Status::from_error` / `try_from_error` / `find_status_in_source_chain` /
+    `from_hyper_error` / `code_from_h2` (status.rs) over an abstract source chain → `ErrClass.*`
   * the end-to-end environment at quiescent points (`Connector`, `MakeSendRequestService`,
     hyper's `SendRequest::poll_ready`, `Status::from_error`)          → `E2E.*`
 The environment is a script: a list of answers, the i-th query gets the i-th answer and an
@@ -203,31 +206,95 @@ def channelSession (isLazy : Bool) (env : List Ans) (n : Nat) : SessBuild × Lis
     | (r', env', .pending) => (.hang, [], r', env')
     | (r', env', .panic) => (.panic, [], r', env')
 
+/-! ### How an error is turned into a gRPC status code (`status.rs`) -/
+namespace ErrClass
+open ErrChain
+
+/-- `Status::code_from_h2`: HTTP/2 reason → gRPC code. -/
+def codeFromH2 : Option Nat → Nat
+  | none => 2
+  | some n =>
+    -- NO_ERROR, PROTOCOL_ERROR, INTERNAL_ERROR, FLOW_CONTROL_ERROR, SETTINGS_TIMEOUT,
+    -- FRAME_SIZE_ERROR, COMPRESSION_ERROR, CONNECT_ERROR → INTERNAL
+    if n = 0 ∨ n = 1 ∨ n = 2 ∨ n = 3 ∨ n = 4 ∨ n = 6 ∨ n = 9 ∨ n = 10 then 13
+    else if n = 7 then 14      -- REFUSED_STREAM → UNAVAILABLE
+    else if n = 8 then 1       -- CANCEL → CANCELLED
+    else if n = 11 then 8      -- ENHANCE_YOUR_CALM → RESOURCE_EXHAUSTED
+    else if n = 12 then 7      -- INADEQUATE_SECURITY → PERMISSION_DENIED
+    else 2
+
+/-- `Status::from_hyper_error`; `next` is the hyper error's direct source. -/
+def fromHyper (h : Hyper) (next : Option Node) : Option Nat :=
+  if h.isTimeout then some 14
+  else if h.isCanceled then some 1
+  else
+    match next with
+    | some (.h2 r) => some (codeFromH2 r)
+    | _ => none
+
+/-- `find_status_in_source_chain`: walk `source()` and stop at the first error that means
+something: a `Status` (its code), `TimeoutExpired` (CANCELLED), `ConnectError` (UNAVAILABLE,
+without looking at its cause), a `hyper::Error` that `from_hyper_error` can place. -/
+def findInChain : List Node → Option Nat
+  | [] => none
+  | .status c :: _ => some c
+  | .timeoutExpired :: _ => some 1
+  | .connectError :: _ => some 14
+  | .hyper h :: rest =>
+    match fromHyper h rest.head? with
+    | some c => some c
+    | none => findInChain rest
+  | .h2 _ :: rest => findInChain rest
+  | .io _ :: rest => findInChain rest
+  | .tls :: rest => findInChain rest
+  | .transport :: rest => findInChain rest
+  | .custom _ :: rest => findInChain rest
+
+/-- `Status::try_from_error`: the outermost error itself may be a `Status` or an `h2::Error`
+(`Box::downcast`), otherwise the chain is searched. -/
+def tryFromError : List Node → Option Nat
+  | .status c :: _ => some c
+  | .h2 r :: _ => some (codeFromH2 r)
+  | chain => findInChain chain
+
+/-- `Status::from_error(..).code()`: UNKNOWN when nothing in the chain is recognised. -/
+def fromError (chain : List Node) : Nat := (tryFromError chain).getD 2
+
+/-- The error a caller gets when a connection attempt failed with `cause`, as handed to
+`Status::from_error` by `client::Grpc` (a call) or by the application (the `Err` of `connect`):
+`transport::Error` (from `Channel`) around the `ConnectError` of `MakeSendRequestService`
+(`wrapsAll`: the tree with `fix-C14-connect-error-class.patch`), around the `ConnectError` of
+`Connector::call` when the failure came from the connector inside it (`inConnector`), around the
+cause. `tower::buffer` and `hyper_timeout::TimeoutConnector` pass errors through unwrapped. -/
+def attemptChain (wrapsAll inConnector : Bool) (cause : List Node) : List Node :=
+  .transport :: ((if wrapsAll then [Node.connectError] else []) ++
+    ((if inConnector then [Node.connectError] else []) ++ cause))
+
+end ErrClass
+
 /-! ### End-to-end environment at quiescent points -/
 namespace E2E
+open ErrChain
 
-/-- Where the error of a failed attempt is raised decides how `Status::from_error` sees it. -/
-inductive ErrClass
-  | connectError
-  | other
-deriving DecidableEq, Repr
+/-- What makes the attempt fail (`accept`: nothing does). `deadPeer`: the HTTP/2 handshake on a
+closed transport ends in a `hyper::Error` that is neither a timeout nor a cancellation and whose
+source is the `io::Error` of the write; `timeout`: `hyper_timeout`'s `io::ErrorKind::TimedOut`. -/
+def causeOf : Outcome → List Node
+  | .refuse => [.io .connectionRefused]
+  | .accept => []
+  | .deadPeer => [.hyper ⟨false, false⟩, .io .brokenPipe]
+  | .timeout => [.io .timedOut]
 
-/-- `fixed = false` is the pinned tree: only the user connector's own error is wrapped in
-`ConnectError` (by `Connector::call`); a handshake failure (`hyper::Error`) and a connect
-timeout (`io::Error` from `hyper_timeout`, which sits outside `Connector`) are not.
-`fixed = true` is the tree with `fix-C14-connect-error-class.patch`: `MakeSendRequestService`
-wraps every failure of the attempt. -/
-def classOf (fixed : Bool) : Outcome → ErrClass
-  | .refuse => .connectError
-  | .accept => .connectError
-  | .deadPeer => if fixed then .connectError else .other
-  | .timeout => if fixed then .connectError else .other
+/-- The error chain of a failed attempt. `fixed = false` is the pinned tree: only the user
+connector's own error is wrapped in `ConnectError` (by `Connector::call`); a handshake failure
+(`hyper::Error`) and a connect timeout (`io::Error` from `hyper_timeout`, which sits outside
+`Connector`) are not. `fixed = true` is the tree with `fix-C14-connect-error-class.patch`:
+`MakeSendRequestService` wraps every failure of the attempt. -/
+def classOf (fixed : Bool) (o : Outcome) : List Node :=
+  ErrClass.attemptChain fixed (o = .refuse) (causeOf o)
 
-/-- `Status::from_error` on such an error: `ConnectError` in the source chain ⇒ UNAVAILABLE,
-nothing recognisable ⇒ UNKNOWN. -/
-def statusCode : ErrClass → Nat
-  | .connectError => 14
-  | .other => 2
+/-- `Status::from_error` on such an error. -/
+def statusCode (chain : List Node) : Nat := ErrClass.fromError chain
 
 structure World where
   /-- outcomes of the connection attempts still to come (past the end: refused) -/
